@@ -1,6 +1,8 @@
 package main
 
 import (
+	"github.com/vektah/gqlparser/v2/parser"
+	"github.com/vektah/gqlparser/v2/ast"
 	"sort"
 	"encoding/json"
 	"fmt"
@@ -215,6 +217,15 @@ func runC07(c *Ctx) {
 		}
 		c07Run(c, cs)
 	}
+	// programs without @genqlient comments: the input structs keep their GraphQL names, so the model of the
+	// (recursive) input-object walk can be compared with what was declared
+	for i := 0; i < c.N(60, 3000); i++ {
+		o := safeOpts
+		o.NoDirectives = true
+		p := gen.GenerateSeed(c.Seed*7368787+uint64(i), o)
+		base := progFromGen(p)
+		c07Run(c, c07Case{Schema: base.Schema, Ops: base.Ops, Cfg: base.Cfg, Stream: "gprog", Kind: "valid-no-directives"})
+	}
 }
 
 // c07Yaml builds a genqlient.yaml (string) with a perturbed casing/optional/bindings section.
@@ -337,6 +348,9 @@ func c07Run(c *Ctx, cs c07Case) {
 	case out.Err != nil:
 		outcome = "error"
 	}
+	if outcome == "ok" && (cs.Stream == "gprog" || cs.Stream == "layouts") && out.Files != nil {
+		c07InputClosure(c, cs, out)
+	}
 	c.Res.Count("stream:" + cs.Stream)
 	c.Res.Count("outcome:" + outcome)
 	c.Res.NonTrivial(cs.Stream + "|" + cs.Kind + "|" + outcome)
@@ -372,4 +386,118 @@ func firstLines(s string, n int) string {
 		l = l[:n]
 	}
 	return strings.Join(l, "\n")
+}
+
+
+// c07InputClosure: correspondence for the model of the (recursive) input-object walk (Model/InputClosure.lean):
+// the input types the model's walk enters into the type map, from each operation variable, are the input structs
+// the real generator declared.
+func c07InputClosure(c *Ctx, cs c07Case, out *GenOut) {
+	var texts []string
+	for _, k := range sortedFileNames(cs.Schema) {
+		texts = append(texts, cs.Schema[k])
+	}
+	schema, err := loadSchema(texts)
+	if err != nil {
+		return
+	}
+	var opsText strings.Builder
+	for _, k := range sortedFileNames(cs.Ops) {
+		if strings.HasSuffix(k, ".graphql") {
+			opsText.WriteString(cs.Ops[k] + "\n")
+		}
+	}
+	if opsText.Len() == 0 || strings.Contains(opsText.String(), "typename:") || strings.Contains(opsText.String(), "bind:") {
+		c.Res.Count("input-closure:not-compared (go literals / typename / bind options)")
+		return
+	}
+	doc, perr := parser.ParseQuery(&ast.Source{Name: "q", Input: opsText.String()})
+	if perr != nil {
+		return
+	}
+	var types []any
+	isInput := map[string]bool{}
+	for name, d := range schema.Types {
+		if d.Kind == ast.InputObject {
+			isInput[name] = true
+		}
+	}
+	names := make([]string, 0, len(isInput))
+	for n := range isInput {
+		names = append(names, n)
+	}
+	sortStrings(names)
+	for _, n := range names {
+		fs := []any{}
+		for _, f := range schema.Types[n].Fields {
+			if isInput[f.Type.Name()] {
+				fs = append(fs, f.Type.Name())
+			}
+		}
+		types = append(types, []any{n, fs})
+	}
+	want := map[string]bool{}
+	roots := 0
+	for _, op := range doc.Operations {
+		for _, v := range op.VariableDefinitions {
+			if !isInput[v.Type.Name()] {
+				continue
+			}
+			roots++
+			m := c.Model(map[string]any{"op": "inputs.closure", "types": types, "root": v.Type.Name()})
+			if m["ok"] != true {
+				c.Res.Add(proto.Finding{Kind: "mismatch", Class: "input-closure-model-out-of-fuel", What: "the model's walk ran out of fuel although the generator terminated", Case: cs})
+				return
+			}
+			for _, x := range m["visited"].([]any) {
+				want[x.(string)] = true
+			}
+		}
+	}
+	if roots == 0 {
+		return
+	}
+	d := parseGoDecls(out.Files["generated.go"])
+	var missing, extra []string
+	// ApplyCasing(def.Name, <default casing>, true): upperFirst without leading underscores, or snake → Camel
+	declared := func(n string) bool {
+		t := strings.TrimLeft(n, "_")
+		if t == "" {
+			return false
+		}
+		up := strings.ToUpper(t[:1]) + t[1:]
+		var camel strings.Builder
+		nextUp := true
+		for _, r := range n {
+			if r == '_' {
+				nextUp = true
+				continue
+			}
+			if nextUp {
+				camel.WriteString(strings.ToUpper(string(r)))
+				nextUp = false
+			} else {
+				camel.WriteRune(r)
+			}
+		}
+		_, a := d.structs[up]
+		_, b := d.structs[camel.String()]
+		return a || b
+	}
+	for n := range want {
+		if !declared(n) {
+			missing = append(missing, n)
+		}
+	}
+	for _, n := range names {
+		if declared(n) && !want[n] {
+			extra = append(extra, n)
+		}
+	}
+	sortStrings(missing)
+	sortStrings(extra)
+	c.Res.Count("input-closure:compared")
+	if len(missing)+len(extra) > 0 {
+		c.Res.Add(proto.Finding{Kind: "mismatch", Class: "input-closure-model", What: fmt.Sprintf("input types entered by the model's walk but not declared: %v; declared but not entered: %v", missing, extra), Case: cs})
+	}
 }
